@@ -63,7 +63,18 @@ def replay_factory(args):
 
 
 def replay_finished(wq, draining, fq):
-    out, _, rc, err = native.run('factory_finished', queue=[5 + (i % 2) for i in range(wq)], draining=1 if draining else 0, fq=fq, timeout=30)
+    # the worker actor alive, then already stopped (its mailbox refuses the hand-over; the factory has not been told yet)
+    r = replay_finished_on(wq, draining, fq, False)
+    if not r['replayed']:
+        r2 = replay_finished_on(wq, draining, fq, True)
+        if r2['replayed']:
+            return r2
+        r['detail'] += ' ; with the worker already stopped: ' + r2['detail']
+    return r
+
+
+def replay_finished_on(wq, draining, fq, closed):
+    out, _, rc, err = native.run('factory_finished', queue=[5 + (i % 2) for i in range(wq)], draining=1 if draining else 0, fq=fq, closed=1 if closed else 0, timeout=30)
     if rc != 0:
         raise RuntimeError('native factory_finished failed: ' + err[-300:])
     d = dict(x.split(':', 1) for x in out['out'].split(';'))
@@ -78,9 +89,9 @@ def replay_finished(wq, draining, fq):
             before, obs['wqueue'], obs['fqueue'], obs['handled'], obs['routed'], obs['discards']))
     if not obs['inpool'] and not draining:
         bad.append('only_a_draining_worker_is_retired')
-    if obs['inpool'] != obs['worker_alive']:
+    if obs['inpool'] != obs['worker_alive'] and not closed:
         bad.append('retired_iff_removed_from_the_pool')
-    return {'replayed': bool(bad), 'detail': 'native worker_finished_job(worker queue %d, draining %s, backlog %d) -> %s ; violated %s' % (wq, draining, fq, obs, bad),
+    return {'replayed': bool(bad), 'detail': 'native worker_finished_job(worker queue %d, draining %s, backlog %d%s) -> %s ; violated %s' % (wq, draining, fq, ', worker already stopped' if closed else '', obs, bad),
             'replay': {'which': 'finished', 'wq': wq, 'draining': draining, 'fq': fq}}
 
 
